@@ -30,10 +30,11 @@ Open Scope Z_scope.
 (* ------------------------------------------------------------------ *)
 (* Part 1: order of effects                                            *)
 
-Inductive step : Type := SOpen | SBuild | SNs | SEncode | SWrite | SFlush | SClose.
+Inductive step : Type := SOpen | SBuild | SNs | SEncode | SBytes | SWrite | SFlush | SClose.
 (* SNs    the root element is created with the namespace map collected during the traversal
           (lxml Element(tag, nsmap=...)): raises for a package without nsURI or with an nsPrefix
           that is not an XML name
+   SBytes text.encode('utf-8'): raises for a string that UTF-8 cannot represent (a lone surrogate)
    SFlush stream.flush(): what was written reaches the file *)
 
 Definition content := option (list Z).
@@ -44,7 +45,7 @@ Inductive outcome : Type := Done | Raised | Stuck.
    at which encoding can fail, at which the namespace step can fail; whether the target is the
    resource's own URI (then uri.close_stream() closes the stream that was written) or an
    `output=` URI object kept by the caller (then it does not); bytes of the document *)
-Record job : Type := { j_nbuild : nat; j_nenc : nat; j_nns : nat; j_own : bool; j_new : list Z }.
+Record job : Type := { j_nbuild : nat; j_nenc : nat; j_nns : nat; j_nbytes : nat; j_own : bool; j_new : list Z }.
 
 Record mach : Type := {
   m_file : content;               (* what a reader of the target sees *)
@@ -72,6 +73,13 @@ Definition hits_ns (j : job) (fault : option nat) : bool :=
   | None => false
   end.
 
+Definition hits_bytes (j : job) (fault : option nat) : bool :=
+  match fault with
+  | Some p => Nat.leb (j_nbuild j + j_nenc j + j_nns j) p
+              && Nat.ltb p (j_nbuild j + j_nenc j + j_nns j + j_nbytes j)
+  | None => false
+  end.
+
 Definition flushed (m : mach) : content :=
   match m_pending m with Some b => Some b | None => m_file m end.
 
@@ -90,6 +98,10 @@ Definition exec_step (j : job) (fault : option nat) (s : step) (m : mach) : outc
     else if hits_encode j fault then (Raised, m)
     else (Done, {| m_file := m_file m; m_open := m_open m; m_tree := m_tree m; m_bytes := true;
                    m_pending := m_pending m |})
+  | SBytes =>
+    (* needs the text of the document *)
+    if negb (m_bytes m) then (Stuck, m)
+    else if hits_bytes j fault then (Raised, m) else (Done, m)
   | SWrite =>
     if m_open m && m_tree m
     then
@@ -133,7 +145,7 @@ Definition legacy_order : list step := [SOpen; SBuild; SEncode; SWrite; SFlush; 
 (* the shapes of order for which Props/C16.v has theorems *)
 Definition order_kind (order : list step) : nat :=
   match order with
-  | [SBuild; SEncode; SOpen; SWrite; SFlush; SClose] => 1
+  | [SBuild; SEncode; SBytes; SOpen; SWrite; SFlush; SClose] => 1
       (* JsonResource.save: all that can raise precedes the opening *)
   | [SBuild; SNs; SBuild; SOpen; SWrite; SFlush; SClose] => 2
       (* XMIResource.save: traversal, namespace step, assembly; then open; serialised while written *)
@@ -178,7 +190,7 @@ Definition observation (os : list sobj) : list (list Z) := map so_obs os.
 
 (* ------------------------------------------------------------------ *)
 (* token codec for the correspondence:
-   fmt ; fault(-1 = none) ; nbuild ; nenc ; nns ; own ; has_old ; |old| ; old.. ; |new| ; new..
+   fmt ; fault(-1 = none) ; nbuild ; nenc ; nns ; nbytes ; own ; has_old ; |old| ; old.. ; |new| ; new..
    answer: outcome(0 done,1 raised,2 stuck) ; has_content ; |c| ; c.. *)
 
 Fixpoint take {A} (n : nat) (l : list A) : list A :=
@@ -191,12 +203,12 @@ Definition outcome_code (o : outcome) : Z :=
 
 Definition run_savefs_with (order_xmi order_json : list step) (t : list Z) : list Z :=
   match t with
-  | fmt :: fault :: nb :: ne :: nn :: own :: has_old :: lo :: rest =>
+  | fmt :: fault :: nb :: ne :: nn :: ny :: own :: has_old :: lo :: rest =>
     let old := take (Z.to_nat lo) rest in
     match drop (Z.to_nat lo) rest with
     | ln :: rest2 =>
       let new := take (Z.to_nat ln) rest2 in
-      let j := {| j_nbuild := Z.to_nat nb; j_nenc := Z.to_nat ne; j_nns := Z.to_nat nn;
+      let j := {| j_nbuild := Z.to_nat nb; j_nenc := Z.to_nat ne; j_nns := Z.to_nat nn; j_nbytes := Z.to_nat ny;
                   j_own := own =? 1; j_new := new |} in
       let order := if fmt =? 0 then order_xmi else order_json in
       let f := if fault <? 0 then None else Some (Z.to_nat fault) in
